@@ -1611,10 +1611,10 @@ def run_huge(ctx, cnfgen, quick):
     if quick:
         F, n, clauses = huge_case(ctx, cnfgen, '67000 clauses of 29 literals below 3000000', wide, ('name',), pad_to=16 * MIB + 1, both=False)
         big = dict(F=F, n=n, clauses=clauses)
-        huge_case(ctx, cnfgen, '140000 clauses of 6 literals below 3000000', tall, ('StringIO', 'stdout'), pad_to=8 * MIB + 1, both=False)
+        huge_case(ctx, cnfgen, '140000 clauses of 6 literals below 3000000', tall, ('stdout',), pad_to=8 * MIB + 1, both=False)
         huge_case(ctx, cnfgen, '140003 variables with names', named(140000), ('name-by-extension',), names=True)
-        huge_case(ctx, cnfgen, 'one clause of 30000 literals', one_line(30000), ('name', 'stdout'))
-        huge_case(ctx, cnfgen, 'description of 100000 characters, name of 70000 characters', long_fields(100000, 70000), ('fileobj', 'name'), names=True)
+        huge_case(ctx, cnfgen, 'one clause of 30000 literals', one_line(30000), ('StringIO',))
+        huge_case(ctx, cnfgen, 'description of 100000 characters, name of 70000 characters', long_fields(100000, 70000), ('fileobj',), names=True)
     else:
         for i, target in enumerate((8 * MIB - 1, 8 * MIB, 8 * MIB + 1)):
             huge_case(ctx, cnfgen, '140000 clauses of 6 literals below 3000000', tall, VIAS if i == 2 else VIAS[i + 1:i + 2], pad_to=target)
